@@ -46,21 +46,31 @@ PREDICATES = {
   'MembersWf': (['s'], 'allocated(s._members) and forall(k, "str", implies(k in s._members, allocated(s._members[k])))'),
 }
 
+# the caches are shared between the worker, the children callback and the path-deleted handler: whenever the worker is
+# descheduled (queue get, the blocker, ZooKeeper reads) they may have been replaced or changed
+CONCURRENCY = {
+  'ZkSet': dict(
+    state=['ServerSet._members', 'dict[str,Member]', 'ServerSet._nodes', 'set[str]', 'Member.g_left', 'Member.g_joined'],
+    invariant=['MembersWf(self)'],
+    guarantee=[],
+  ),
+}
+
 FUNCTIONS.update({
   # the worker: for one queued (joined, departed) pair -- read the joined members, cache them, then for every departed
   # name forget the cached member *before* telling the consumer (so a raising callback leaves nothing behind and the
   # member cannot be announced as leaving twice), then announce the joined ones; no consumer exception stops the loop
   'ServerSet._notification_worker': dict(
-    cls='ServerSet',
+    cls='ServerSet', conc='ZkSet',
     locals={'work': 'tuple[set[str],set[str]]', 'new_nodes': 'set[str]', 'removed_nodes': 'set[str]', 'new_members': 'list[Member]',
             'removed_member': 'Member?'},
     requires=['MembersWf(self)', 'allocated(self._notification_queue)', 'allocated(self._cb_blocker)'],
     ensures=[], raises={'GreenletExit': dict()},
-    modifies=['dict[str,Member]', 'Member.g_left', 'Member.g_joined', '$cls', 'set[str]'], allocates='any',
+    modifies=['ServerSet._members', 'ServerSet._nodes', 'dict[str,Member]', 'Member.g_left', 'Member.g_joined', '$cls', 'set[str]'], allocates='any',
     yields=[{'at': 'self._notification_queue.get()'}, {'at': 'self._cb_blocker.ensure_safe()'}, {'at': 'self._zk_nodes_to_members(new_nodes)'}],
     loops={
       0: dict(invariant=['MembersWf(self)', 'allocated(self._notification_queue)', 'allocated(self._cb_blocker)'],
-              modifies=['dict[str,Member]', 'Member.g_left', 'Member.g_joined', '$cls', 'set[str]'], allocates='any'),
+              modifies=['dict[str,Member]', 'Member.g_left', 'Member.g_joined', '$cls', 'set[str]', 'ServerSet._members', 'ServerSet._nodes'], allocates='any'),
       1: dict(invariant=['MembersWf(self)', 'allocated(new_members)', 'forall(k, 0, len(new_members), allocated(new_members[k]))',
                          'forall(k, 0, _i1, new_members[k].name in self._members)'],
               modifies=['dict[str,Member]'], allocates='any'),
